@@ -6,15 +6,16 @@ import (
 	"fmt"
 	"os"
 	"path/filepath"
+	"sort"
 	"strings"
 )
 
 // facts written by tools/extract (this run)
 type fGuard struct {
-	Kind string  `json:"kind"`
-	Lo   int     `json:"lo"`
-	Hi   int     `json:"hi"`
-	L    []int   `json:"l"`
+	Kind string `json:"kind"`
+	Lo   int    `json:"lo"`
+	Hi   int    `json:"hi"`
+	L    []int  `json:"l"`
 }
 type fSlot struct {
 	Name    string `json:"name"`
@@ -31,10 +32,10 @@ type fSlot struct {
 	HasIei  bool   `json:"hasIei"`
 }
 type fMsg struct {
-	Name   string  `json:"name"`
-	DecMan []fSlot `json:"decMan"`
-	DecOpt []fSlot `json:"decOpt"`
-	StructSize int `json:"structSize"`
+	Name       string  `json:"name"`
+	DecMan     []fSlot `json:"decMan"`
+	DecOpt     []fSlot `json:"decOpt"`
+	StructSize int     `json:"structSize"`
 }
 type fCase struct {
 	Const int    `json:"const"`
@@ -366,6 +367,26 @@ func genCodecDec(g *Gen, w *bufio.Writer) {
 
 func genCodecDecT(g *Gen, w *bufio.Writer, t *fTables) {
 	emit := func(entry string, b []byte) { fmt.Fprintf(w, "dec %s %s\n", entry, hexs(b)) }
+	bases := map[string][][]byte{} // family -> one valid message per type, for the recycled-Message pairs below
+	defer func() {
+		fams := make([]string, 0, len(bases))
+		for f := range bases {
+			fams = append(fams, f)
+		}
+		sort.Strings(fams)
+		for _, f := range fams {
+			bs := bases[f]
+			for i := range bs {
+				a, b := bs[i], bs[(i+1)%len(bs)]
+				c := bs[g.Intn(len(bs))]
+				fmt.Fprintf(w, "dec2 plain %s %s\n", hexs(a), hexs(b))
+				fmt.Fprintf(w, "dec2 %s %s %s\n", f, hexs(b), hexs(a))
+				fmt.Fprintf(w, "dec2 plain %s %s\n", hexs(c), hexs(a))
+				fmt.Fprintf(w, "dec2 plain %s %s\n", hexs(a[:len(a)-1]), hexs(b))         // failed decode, then a good one
+				fmt.Fprintf(w, "dec2 plain %s %s\n", hexs(a), hexs(b[:1+g.Intn(len(b))])) // good one, then a truncated one
+			}
+		}
+	}()
 	fmt.Fprintln(w, "dec plain nil")
 	fmt.Fprintln(w, "dec plain -")
 	for _, d := range t.Dispatch {
@@ -377,6 +398,7 @@ func genCodecDecT(g *Gen, w *bufio.Writer, t *fTables) {
 			}
 			man := mandatoryL(g, m, c.Const, d.TypeIndex, epdOf(fam), true)
 			base := renderMsg(m, man, nil)
+			bases[fam] = append(bases[fam], base)
 			// every truncation of the mandatory part
 			for k := 0; k <= len(base); k++ {
 				emit("plain", base[:k])
@@ -641,6 +663,34 @@ func genDispatchT(g *Gen, w *bufio.Writer, t *fTables) {
 					fmt.Fprintf(w, "dec %s %s\n", d.Family, hexs(b))
 				}
 			}
+		}
+	}
+	// a recycled Message: every ordered pair of message types of one family decoded into the same Message (plus an unknown type
+	// and a header-only input in second place): exactly the body named by the second input
+	for _, d := range t.Dispatch {
+		var keys []int
+		for _, c := range d.Decode {
+			if _, ok := body[fmt.Sprintf("%s/%d", d.Family, c.Const)]; ok {
+				keys = append(keys, c.Const)
+			}
+		}
+		sort.Ints(keys)
+		for _, x := range keys {
+			bx := body[fmt.Sprintf("%s/%d", d.Family, x)]
+			for _, y := range keys {
+				by := body[fmt.Sprintf("%s/%d", d.Family, y)]
+				if x == y && g.Tier != "thorough" {
+					continue
+				}
+				fmt.Fprintf(w, "dec2 plain %s %s\n", hexs(bx), hexs(by))
+				if g.Intn(8) == 0 {
+					fmt.Fprintf(w, "dec2 %s %s %s\n", d.Family, hexs(bx), hexs(by))
+				}
+			}
+			unk := append([]byte{}, bx...)
+			unk[d.TypeIndex] = 0xff
+			fmt.Fprintf(w, "dec2 plain %s %s\n", hexs(bx), hexs(unk))
+			fmt.Fprintf(w, "dec2 plain %s %s\n", hexs(bx), hexs(bx[:d.HeaderLen-1]))
 		}
 	}
 	// all inputs of length 0..2, and length 3..4 behind both discriminators
